@@ -52,14 +52,30 @@ AfterLead == {<<a, b>> : a \in Lead, b \in Refused \cup AtLimit \cup Trailing}
 Deep == SeqsOf(Core, 3) \cup SeqsOf(Core, 4)
 Deep3 == SeqsOf(Core, 3)
 
+\* A refused frame in the MIDDLE of a stream: what follows it is valid and must never be read
+\* (the connection ends at the refused frame, CodecConn.tla).  Bare headers (nothing of the
+\* announced body present) put the next valid frame right behind the refused header.
+RefusedMid == {Raw(3, FALSE, 0, 0, 0, 0), Raw(3, FALSE, 16, 16, 16, 0), Raw(99, FALSE, 22, 22, 0, 0),
+               Raw(3, TRUE, Limit(3) + 1, 0, 0, 0), Raw(9, TRUE, Limit(9) + 1, 0, 0, 0),
+               Raw(99, TRUE, Limit(99) + 1, 0, 0, 0), Raw(11, TRUE, 1073741824, 0, 0, 0),
+               Raw(3, TRUE, Limit(3) + 1, TAIL, 0, 0), HeadersF(2, 1, 0), PeerAddrsF(257, 257),
+               Raw(3, TRUE, 15, 15, 16, 0), Raw(2, TRUE, 40, 40, -1, 0)}
+Tails == {<<Ping>>, <<HeadersF(1, 1, 0), Ping>>}
+MidRefusal == {<<b>> \o t : b \in RefusedMid, t \in Tails}
+                 \cup {<<a, b>> \o t : a \in {Ping, HeadersF(33, 33, 0), Unknown(99, 1)}, b \in RefusedMid, t \in {<<Ping>>}}
 AroundEmpty == {<<EmptyHeaders, b>> : b \in Honest} \cup {<<a, EmptyHeaders>> : a \in Honest}
                   \cup {<<Ping, EmptyHeaders, Ping>>, <<EmptyHeaders, EmptyHeaders, HeadersF(33, 33, 0)>>}
-StreamsQuick == Singles \cup AfterLead \cup SeqsOf(Core, 2) \cup Deep3 \cup AroundEmpty
-StreamsFull == Singles \cup Pairs \cup AfterLead \cup Deep \cup AroundEmpty
+StreamsQuick == Singles \cup AfterLead \cup SeqsOf(Core, 2) \cup Deep3 \cup AroundEmpty \cup MidRefusal
+StreamsFull == Singles \cup Pairs \cup AfterLead \cup Deep \cup AroundEmpty \cup MidRefusal
 \* probe (MC_Codec_probe_hoist.cfg, TimeoutPerChunk = FALSE): the model must tell the two
 \* placements of set_stream_timeout apart (NoDesync is expected to FAIL there)
 StreamsProbe == {<<Ping, Ping>>}
 
+\* why a frame ends the connection ("" if it does not): used for the violation signatures only
+RefusalKind(f) == LET c == FrameClass(f) IN
+  IF ~f.magic THEN "bad_magic" ELSE IF f.len > Limit(f.t) THEN "over_limit"
+  ELSE IF c = "badcount" THEN "bad_count" ELSE IF c = "baddecode" THEN "bad_body"
+  ELSE IF c = "unexpected" THEN "unexpected_type" ELSE ""
 \* Case generator: one line per stream with what the property demands of it.
 RECURSIVE StartsOf(_, _)
 StartsOf(s, i) == IF i > Len(s) THEN <<>> ELSE <<StartOf(s, i)>> \o StartsOf(s, i + 1)
@@ -68,7 +84,8 @@ StartsOf(s, i) == IF i > Len(s) THEN <<>> ELSE <<StartOf(s, i)>> \o StartsOf(s, 
 \* satisfy the same predicate
 Case(s) == [frames |-> s, expect |-> ExpectedSeq(s), total |-> Total(s), starts |-> StartsOf(s, 1),
             classes |-> [i \in 1..Len(s) |-> FrameClass(s[i])],
-            silent |-> {c \in Cuts(s) : SilenceOK(s, c)}]
+            silent |-> {c \in Cuts(s) : SilenceOK(s, c)},
+            kinds |-> [i \in 1..Len(s) |-> RefusalKind(s[i])]]
 EmitSpec == Init /\ [][FALSE]_vars
 Emit == PrintT(<<"CODECCASE", ToJson(Case(stream))>>)
 =========================================================================
